@@ -83,10 +83,11 @@ def run(ctx):
         elif f[0] == "ORACLE":
             oracles.append(f)
         elif f[0] == "E":
-            exp = {"ok": "(EOk %s %s)" % (cq_bool(f[5] == "1"), cq_bytes(unhex(f[6]))), "err": "EErr", "panic": "EPanic"}[f[4]]
-            key = "env-" + f[1] + ":" + f[4]
+            exp = {"ok": "(EOk %s %s)" % (cq_bool(f[6] == "1"), cq_bytes(unhex(f[7]))), "err": "EErr", "panic": "EPanic"}[f[5]]
+            key = "env-" + f[1] + ":" + f[5]
             dist[key] = dist.get(key, 0) + 1
-            cases.append(("env", "CEnv %s %s %s" % (f[2], f[3], exp), [f[1], f[2], f[3], f[4], f[5], unhex(f[6]).decode("latin-1")]))
+            show = [f[1], "stamp=" + {"0": "error", "1": "equal", "2": "differs"}[f[2]], f[3][:300], f[4][:300], f[5], f[6], unhex(f[7]).decode("latin-1")]
+            cases.append(("env", "CEnv %s %s %s %s" % ({"0": "StampErr", "1": "StampEqual", "2": "StampDiffers"}[f[2]], f[3], f[4], exp), show))
     cases.append(("keys", "CKeys %s" % cq_list([cq_bytes(k) for k in keys], "str"), ["functionEnvKeys"] + [k.decode() for k in keys]))
 
     src_rs = route_size_from_source()
@@ -116,7 +117,7 @@ def run(ctx):
 
     for f in oracles[:10]:
         ctx.violation("implementation violates C16 oracle %s" % f[1],
-                      {"oracle": f[1], "inputs": f[2:4], "observed": f[4:],
+                      {"oracle": f[1], "inputs": [x[:2000] for x in f[2:4]], "observed": [x[:2000] for x in f[4:]],
                        "how": "diff.Diff(a, b) / function.diffEnv on the given values (term language of coq/Diff/Run.v); "
                               "see harness/overlay/diff/zz_verif_c16_test.go, harness/overlay/root/zz_verif_c16_reason_test.go"})
     for b in big:
